@@ -1,0 +1,89 @@
+// Verification-only delay points (compiled only with `--cfg gpa_verif`).
+//
+// GPA_VERIF_DELAY="name:permille:max_us,..." makes `delay_point(name)` sleep for a pseudo-random
+// time in [0, max_us] microseconds (0 = just yield) with probability permille/1000.
+// Without the variable every call is a no-op. Reach/fire counts are kept for evidence.
+use std::collections::HashMap;
+use std::sync::atomic::{AtomicU64, Ordering};
+use std::sync::{Mutex, OnceLock};
+
+static CONFIG: OnceLock<HashMap<String, (u64, u64)>> = OnceLock::new();
+static RNG: AtomicU64 = AtomicU64::new(0x9E3779B97F4A7C15);
+static COUNTS: OnceLock<Mutex<HashMap<String, (u64, u64)>>> = OnceLock::new();
+
+fn config() -> &'static HashMap<String, (u64, u64)> {
+    CONFIG.get_or_init(|| {
+        let mut map = HashMap::new();
+        if let Ok(spec) = std::env::var("GPA_VERIF_DELAY") {
+            for item in spec.split(',') {
+                let parts: Vec<&str> = item.split(':').collect();
+                if parts.len() == 3 {
+                    if let (Ok(p), Ok(m)) = (parts[1].parse::<u64>(), parts[2].parse::<u64>()) {
+                        map.insert(parts[0].to_string(), (p, m));
+                    }
+                }
+            }
+        }
+        if let Ok(seed) = std::env::var("GPA_VERIF_DELAY_SEED") {
+            if let Ok(seed) = seed.parse::<u64>() {
+                RNG.store(seed | 1, Ordering::Relaxed);
+            }
+        }
+        map
+    })
+}
+
+fn next() -> u64 {
+    let mut x = RNG.load(Ordering::Relaxed);
+    x ^= x << 13;
+    x ^= x >> 7;
+    x ^= x << 17;
+    RNG.store(x, Ordering::Relaxed);
+    x
+}
+
+/// (reached, fired) per delay point name
+pub fn counts() -> HashMap<String, (u64, u64)> {
+    COUNTS
+        .get_or_init(|| Mutex::new(HashMap::new()))
+        .lock()
+        .unwrap()
+        .clone()
+}
+
+pub async fn delay_point(name: &str) {
+    let cfg = config();
+    if cfg.is_empty() {
+        return;
+    }
+    let fired = match cfg.get(name) {
+        Some((permille, max_us)) => {
+            if next() % 1000 < *permille {
+                Some(if *max_us == 0 {
+                    0
+                } else {
+                    next() % (*max_us + 1)
+                })
+            } else {
+                None
+            }
+        }
+        None => None,
+    };
+    {
+        let mut counts = COUNTS
+            .get_or_init(|| Mutex::new(HashMap::new()))
+            .lock()
+            .unwrap();
+        let entry = counts.entry(name.to_string()).or_insert((0, 0));
+        entry.0 += 1;
+        if fired.is_some() {
+            entry.1 += 1;
+        }
+    }
+    match fired {
+        Some(0) => tokio::task::yield_now().await,
+        Some(us) => tokio::time::sleep(std::time::Duration::from_micros(us)).await,
+        None => {}
+    }
+}
